@@ -316,6 +316,8 @@ def gen_problem(rng):
     for j, t in enumerate(rng.sample(range(-20, 250, 10), rng.randint(0, 2))):
         utils.append(U(f"CU{j}", "Cold", t))
     opts = {"DO_VERTICAL_GCC": rng.random() < 0.5, "DO_ASSITED_HT": rng.random() < 0.5, "DO_BALANCED_CC": rng.random() < 0.7}
+    if rng.random() < 0.2:
+        opts["DO_DIRECT_OPERATION_TARGETING"] = True      # unit-operation zones get records too: each needs its graph set
     return dict(streams=streams, utilities=utils, options=opts)
 
 
@@ -579,6 +581,8 @@ E2E_CORPUS = [
     dict(streams=[S("P1", "H1", 250, 40, 2100), S("P1", "C1", 20, 180, 1800), S("P2", "H2", 200, 80, 1200), S("P2", "C2", 60, 150, 1450)], utilities=[], options={},
          zone_tree=dict(name="R", type="Region", children=[dict(name="Cm", type="Community", children=[
              dict(name="S1", type="Site", children=[dict(name="P1", type="Process Zone"), dict(name="P2", type="Process Zone")])])])),
+    dict(streams=[S("Z0", "H1", 250, 40, 2100), S("Z0", "C1", 20, 180, 1800), S("Z0", "H2", 200, 80, 1200), S("Z0", "C2", 60, 150, 1450)], utilities=[],
+         options=dict(DO_DIRECT_OPERATION_TARGETING=True)),                   # records of the unit-operation zones carry graph sets too
     # relative band, severe form: the cold composite [64000.25, 64000, ...] is entirely within 1e-5*|H0| of its first value: the SERVICE raises
     dict(streams=[S("Z0", "H", 290, 40, 64000, 5), S("Z0", "Ctiny", 300, 310, 0.25, 0)], utilities=[], options={}),
 ]
